@@ -1,6 +1,7 @@
 """C43 — config section inheritance resolves to the nearest definition (worklist order / first-match / error clauses)."""
 import ast
 
+from ..core import generic as G
 from ..core import astutil as A
 from ..core import match as M
 from ..core.model import dotted
@@ -90,6 +91,11 @@ def run(ctx):
     ctx.check("R4", gi, M.has(lp, f"if len({sv}) == 1:\n    raise errors.ConfigurationError($_)"), "self-inherit-error", "a self-inherit with nothing below it is reported")
     ctx.check("R4", gi, vis is not None and rec is not None, "visited-set", "visited names start with the section itself and grow with every new target")
     ctx.floor("R4", 4)
+
+    # ---- R5 adding a source invalidates every rendering -----------------------------------------------------------------
+    G.always_reaches(ctx, "R5", "pkgcore.config.central", "ConfigManager.add_config_source", lambda c: A.unparse(c.func) == "self.reload",
+                     "a full reload() of the rendered sections", "add-source-reloads")
+    ctx.floor("R5", 1)
 
 
 F = "src/pkgcore/config/central.py"
